@@ -50,8 +50,12 @@ CUBOCTA_T = [[8, 1, 3], [2, 1, 0], [2, 7, 6], [5, 4, 0], [9, 8, 7], [11, 4, 3], 
              [2, 8, 7], [2, 8, 1], [5, 2, 0], [5, 2, 6], [11, 8, 3], [11, 9, 8], [10, 9, 7], [10, 7, 6], [10, 11, 4], [10, 5, 4]]
 # a mesh whose vertex centroid is not the origin of the mesh frame (the origin is still strictly inside)
 TETRA_OFF_V = [[v[0] + 0.25, v[1] + 0.125, v[2] - 0.125] for v in TETRA_V]
+# a mesh whose frame origin lies far outside the mesh (scanned / exported meshes are rarely centred): a pose error
+# that a nearly centred mesh hides (rotation applied to the vertex mean the wrong way round) moves center() out of it
+TETRA_FAR_V = [[v[0] + 3.0, v[1] + 1.0, v[2] - 2.0] for v in TETRA_V]
 MESHES = {"tetra": (TETRA_V, _orient(TETRA_V, TETRA_T)), "cube": (CUBE_V, _orient(CUBE_V, CUBE_T)),
           "tetra_off": (TETRA_OFF_V, _orient(TETRA_OFF_V, TETRA_T)),
+          "tetra_far": (TETRA_FAR_V, _orient(TETRA_V, TETRA_T)),
           "cubocta_raw": (CUBOCTA_V, CUBOCTA_T),
           "octa": (OCTA_V, _orient(OCTA_V, OCTA_T)), "tetra_in": (TETRA_IN_V, TETRA_IN_T),
           "octa_mixed": (OCTA_V, _mixed(_orient(OCTA_V, OCTA_T))), "cube_mixed": (CUBE_V, _mixed(_orient(CUBE_V, CUBE_T)))}
@@ -191,11 +195,12 @@ class Shape:
         """(normal, offset) of the hull facets, computed concretely from the corpus mesh."""
         V, Tr = MESHES[self.spec["mesh"]]
         out = []
+        g = [sum(v[k] for v in V) / len(V) for k in range(3)]        # an interior point: the vertex centroid
         for i, j, k in Tr:
             a, b, c = V[i], V[j], V[k]
             n = CROSS(SUB(b, a), SUB(c, a))
             off = DOT(n, a)
-            if off < 0:          # origin is strictly inside every corpus mesh
+            if DOT(n, SUB(a, g)) < 0:          # normal pointing towards the interior: flip
                 n, off = [-x for x in n], -off
             out.append((n, off))
         return out
